@@ -110,6 +110,9 @@ class ModelReplay:
             return
         if name == "UserResubmit":
             flags = ["--failed" if x & 1 else "--no-failed", "--missing" if x & 2 else "--no-missing"] + (["--successful"] if x & 4 else [])
+            if a == 1:        # -s FILE with the scenario's replacement parameters
+                from harness import run as _run
+                flags += ["-s", _run.regroup_file(self.r, self.r.scn, self.r.scn["regroup"], 0)]
             self.login = self.r.user("resubmit-jobs", self.w.out, *flags)
             return
         if name == "UserCancel":
@@ -157,6 +160,14 @@ class ModelReplay:
             if not x:                 # refused: cancel-jobs sleeps a second and tries again
                 self.expect(p, "sleep")
                 self.step(p)
+        elif name == "CGiveUp":
+            # the remaining attempts (one second apart) are all refused: nobody else moves meanwhile
+            guard = 0
+            while p.alive and guard < 400:
+                self.step(p)
+                guard += 1
+            if p.alive:
+                raise Divergence(f"cancel-jobs {p.pid} did not give up: {parked(p)}")
         elif name in ("CMark", "CDemote"):
             self.expect(p, "lock", "cluster")
             self.step(p)
@@ -337,9 +348,18 @@ def compare(model_events, tr, sync_index):
             model.append(n)
     # config_batch_N.json is written by the submitter before it parks at sbatch; nobody reads it before the batch
     # starts, so its write commutes with the other processes' events: compared as a separate sequence
+    def squeeze(xs):
+        # consecutive refused promotions of one process (cancel-jobs' one-second retries) count as one: the model abstracts
+        # from their number
+        out = []
+        for x in xs:
+            if out and x[0] == "promote" and x[3] is False and out[-1] == x:
+                continue
+            out.append(x)
+        return out
     for name, sel in (("events", lambda x: x[0] != "cfgbatch"), ("cfgbatch", lambda x: x[0] == "cfgbatch")):
-        ms = [x for x in model if sel(x)]
-        rs = [x for x in real if sel(x)]
+        ms = squeeze([x for x in model if sel(x)])
+        rs = squeeze([x for x in real if sel(x)])
         for i, (a, b) in enumerate(zip(ms, rs)):
             if a != b:
                 return {"seq": name, "index": i, "model": a, "real": b}
